@@ -65,6 +65,27 @@ def run(ck, P):
         okt = okt and has(fc, "m_mod_is(mod, %d)" % LIVE) and tested and bool(vs) and all(x.startswith("fetch_sub(mod, ") for x in vs) and S(e.args[2]) == "mod"
     ck.ob("C02.1-ELIGIBLE", ts.site("publish fan-out"), okt, "tell_if offered under RUNNING|PAUSED and a found subscription: %s" % okt)
 
+    # fetch_sub finds an exact-topic subscription by its key: a topic is stored under its own spelling, and a spelling with regex
+    # metacharacters ("price$", "sensors[0]") does not match itself as a pattern, so the pattern pass alone loses such subscribers
+    fs = P.fn("fetch_sub", PS, required=False)
+    if fs is not None and fs.name == "fetch_sub":
+        ck.analysed(fs)
+        tpar = fs.params[1]["name"] if len(fs.params) > 1 else "topic"
+        srcs = set()
+        for r in fs.events():
+            if r.kind != "ret" or r.e is None:
+                continue
+            rv = strip(r.e)
+            if rv["k"] == "var" and rv.get("vk") in ("local", "param"):
+                srcs |= rules.value_sources(fs, rv["name"])
+            else:
+                srcs.add(S(rv))
+        exact = [x for x in srcs if x.startswith("m_map_get(") and x.endswith("->subscriptions, %s)" % tpar)]
+        ck.ob("C02.1-ELIGIBLE", fs.site("exact topic looked up by key"), bool(exact),
+              "fetch_sub returns the subscription stored under the published topic itself (%s); without it a subscriber whose topic "
+              "contains regex metacharacters is not found by the pattern pass and the publish never reaches it; returned values come from %s"
+              % (exact[0] if exact else "no m_map_get(…->subscriptions, %s)" % tpar, sorted(srcs)))
+
     bound = []
     for ev in P.calls_to("m_map_iterate"):
         if ev.fn.unit == PS and S(ev.args[0]).endswith("->modules"):
